@@ -735,8 +735,13 @@ impl<'tcx> Ex<'tcx> {
             o.push(("fn", self.fn_ref(*d, args, env)));
         } else if let ty::Closure(d, _) = ty.kind() {
             o.push(("fn", J::obj(vec![("$fn", J::S(pname(tcx, *d)))])));
-        } else if !c.const_.has_non_region_param() {
-            if let Ok(v) = c.const_.eval(tcx, env, c.span) {
+        } else if !ty.has_non_region_param() {
+            // (generic functions: promoteds that do not depend on the parameters still evaluate; others return TooGeneric)
+            let evaluated = match c.const_ {
+                mir::Const::Ty(_, ct) if ct.has_non_region_param() => Err(()),
+                _ => c.const_.eval(tcx, env, c.span).map_err(|_| ()),
+            };
+            if let Ok(v) = evaluated {
                 let mut budget = 600usize;
                 o.push(("val", self.decode_value(v, ty, &mut budget)));
             }
